@@ -523,11 +523,35 @@ func (c *Ctx) helper(rel, name string) *ssa.Function {
 		}
 		cands = append(cands, fn)
 	}
+	if len(cands) > 1 {
+		// several unexported functions share the signature: the helper is the one its (exported) user reaches
+		if user, ok := helperUsers[rel+"."+name]; ok {
+			if uf := c.P.Func(rel, user); uf != nil {
+				reach := map[*ssa.Function]bool{}
+				for _, f := range reachableRepoFuncs(uf) {
+					reach[f] = true
+				}
+				var kept []*ssa.Function
+				for _, f := range cands {
+					if reach[f] {
+						kept = append(kept, f)
+					}
+				}
+				cands = kept
+			}
+		}
+	}
 	if len(cands) == 1 {
 		c.R.Assume("helper " + rel + "." + name + " not found by name; re-identified by its signature as " + cands[0].Name())
 		return cands[0]
 	}
 	return nil
+}
+
+// helperUsers: for helpers whose signature is shared, the exported function that (alone) reaches them.
+var helperUsers = map[string]string{
+	"pkg/curl.Curl.in":  "Curl.Absorb",
+	"pkg/curl.Curl.out": "Curl.Squeeze",
 }
 
 const permSig = "(*[729]uint,*[729]uint,*[729]uint,*[729]uint)()"
